@@ -1,6 +1,7 @@
 import LettreVerif.Model.Mime
 import LettreVerif.Spec.MimeParse
 import LettreVerif.Proofs.Mime
+import LettreVerif.Proofs.ContentType
 /-!
 # C11 — MIME trees format to a structure an independent parser reads back identically
 
@@ -141,5 +142,20 @@ example :
      | some (.multi _ [.leaf _ c1, .multi _ [.leaf _ c2]]) => c1 == str "h\r\n--x\r\n-- " && c2 == str "hi"
      | _ => false) = true := by
   set_option maxRecDepth 8000 in decide
+
+/-- **The Content-Type a reader sees is the media type as given**, for every printable-ASCII media type (any boundary made
+    of `bchars` is one): the value written after `Content-Type: ` (`ContentType::display`, `Model/HeaderEnc.contentTypeValue`),
+    once unfolded, is exactly the text — no octet of a quoted `boundary` parameter is rewritten, so the boundary announced is
+    the boundary of the delimiter lines. (Before `fix:` b49469c a boundary containing a token of the form `=?…?=` was announced
+    as an encoded-word.) -/
+theorem content_type_written_literally (raw : Bytes) (h : raw.all (HeaderEnc.allowedChar true) = true) :
+    HeaderReader.unfold (HeaderEnc.contentTypeValue raw) = raw :=
+  HeaderEnc.contentTypeValue_literal raw h
+
+/-- non-vacuity, and the repaired defect on the model: the boundary `a =?b?= c` -/
+example :
+    HeaderReader.unfold (HeaderEnc.contentTypeValue (str "multipart/mixed; boundary=\"a =?b?= c\"")) = str "multipart/mixed; boundary=\"a =?b?= c\"" ∧
+    HeaderEnc.encodeValue HeaderEnc.opts 12 (str "multipart/mixed; boundary=\"a =?b?= c\"") ≠ str "multipart/mixed; boundary=\"a =?b?= c\"" := by
+  decide +kernel
 
 end LV.C11
